@@ -1,4 +1,5 @@
 import Yomm2.Props.C06
+import Yomm2.Proofs.Graph
 /-!
 # C08 — inheritance is inferred correctly however registrations are split
 
@@ -53,6 +54,16 @@ theorem C08_moreGeneral_congr {proj} {r₁ r₂ : Registry} (h : SameGraph proj 
   constructor
   · rintro ⟨h1, h2⟩; exact ⟨forall₂_imp (fun a b => (h _ _).mp) h1, h2⟩
   · rintro ⟨h1, h2⟩; exact ⟨forall₂_imp (fun a b => (h _ _).mpr) h1, h2⟩
+
+/-- **C08 (model level)**: whatever the presentation — per class any superset of the direct bases within
+    the transitive bases, with or without the class itself, duplicated entries, several records — the
+    covariant set `augment_classes` computes for a class is exactly the set of classes deriving from it.
+    Everything downstream (acceptable classes, masks, groups, specificity) is computed from these sets. -/
+theorem model_infers_inheritance (proj : Nat → Nat) (recs : List ClassRec) (ms : List MethodRec) (g : Graph)
+    (hg : buildGraph proj recs = .ok g) (hwf : GraphProofs.WF proj recs ms) (c d kc kd : Nat)
+    (hc : GraphProofs.keyAt proj recs c = some kc) (hd : GraphProofs.keyAt proj recs d = some kd) :
+    d ∈ g.cov.get c ↔ Derives proj ⟨recs, ms⟩ kd kc :=
+  GraphProofs.cov_iff_derives proj recs ms g hg hwf c d kc kd hc hd
 
 /-- listing a base redundantly (a transitive base next to the direct ones) does not change the graph -/
 theorem redundant_base_same_graph {proj} (classes : List ClassRec) (methods : List MethodRec)
